@@ -1,5 +1,6 @@
 import RimuProofs.Props.C01
 import RimuProofs.Lemmas.Tactic
+import RimuProofs.Lemmas.ExtBlock
 
 /-!
 # C02  Rendering terminates and cannot be stalled by short input
@@ -55,5 +56,35 @@ example :
       match (apiRender ⟨fun _ _ => .error⟩ 60 src.toList { callback := true }).run Session.uninit with
       | .ok (_, s) => s.log.any fun m => startsWith m "macro expansion nesting limit exceeded".toList || startsWith m "undefined macro".toList
       | .error _ => false) = true := by decide +kernel
+
+/-- **Fuel is only a termination device.**  A `render` call of the model that ends in anything but `outOfFuel` - a
+    result and a final session, or a Python exception - ends in exactly the same way with any larger fuel: every
+    function of the model, the four mutually recursive list functions and the nested span / document renderers
+    included, extends itself (`Lemmas/Ext*.lean`).  So what the theorems of C01 - C20 say about "every fuel" is said
+    about the one unbounded computation of the implementation whenever that computation ends, and the fuel the
+    correspondence check picks cannot change an answer, only withhold it. -/
+theorem fuel_is_only_a_termination_device (env : Env) {n m : Nat} (h : n ≤ m) (src : Str) (o : RenderOptions)
+    (s : Session) (hn : (apiRender env n src o).run s ≠ .error .outOfFuel) :
+    (apiRender env m src o).run s = (apiRender env n src o).run s :=
+  apiRender_ext env h src o s hn
+
+/-- Two fuels that both suffice give the same outcome. -/
+theorem sufficient_fuels_agree (env : Env) (n m : Nat) (src : Str) (o : RenderOptions) (s : Session)
+    (hn : (apiRender env n src o).run s ≠ .error .outOfFuel) (hm : (apiRender env m src o).run s ≠ .error .outOfFuel) :
+    (apiRender env n src o).run s = (apiRender env m src o).run s := by
+  rcases Nat.le_total n m with h | h
+  · exact (fuel_is_only_a_termination_device env h src o s hn).symm
+  · exact fuel_is_only_a_termination_device env h src o s hm
+
+/-- Not vacuous: fuel 7 suffices for a document with a list in a container block (6 does not). -/
+example :
+    (match (apiRender ⟨fun _ _ => .error⟩ 7 "..\n- a\n\n  b\n..".toList {}).run Session.uninit with
+      | .error .outOfFuel => false
+      | .error _ => true
+      | .ok (out, _) => out == "<ul><li>a<pre><code>b</code></pre></li></ul>".toList) = true ∧
+    (match (apiRender ⟨fun _ _ => .error⟩ 6 "..\n- a\n\n  b\n..".toList {}).run Session.uninit with
+      | .error .outOfFuel => true
+      | _ => false) = true := by
+  constructor <;> decide +kernel
 
 end Props.C02
